@@ -91,6 +91,7 @@ fn run_case(case: &J) -> J {
         "eval" => eval_case(case),
         "parse" => parse_case(case),
         "map" => maps::map_case(case),
+        "vec2" => maps::vec2_case(case),
         _ => json!({"machinery_error": format!("unknown kind {kind}")}),
     }));
     match r {
